@@ -327,8 +327,17 @@ def stub_log2(x):
       fact(n > 0)         # degenerate (log of a non-positive quantity) executions are outside the claim of the caller
     else:
       raise PathLimit("log2 of a possibly non-positive value %s" % z3.simplify(n))
+  # log2 is a function: a structurally identical argument (on this path) gets the very same value
+  memo = getattr(c, "log2_memo", None)
+  if memo is None:
+    memo = c.log2_memo = []
+  for (m_, v_) in memo:
+    if m_.eq(n):
+      return v_
   c.log2_args = getattr(c, "log2_args", []) + [n]
-  return Log2Val(n)
+  v = Log2Val(n)
+  memo.append((n, v))
+  return v
 
 
 def sym_ceil(x):
